@@ -100,6 +100,7 @@ Definition pstep (st : pstate) (chr : N) (rest : list N) : paterr + (pstate * li
     match p_subs st with
     | [] => inl SubPattern
     | sb :: subs =>
+      if negb (p_depth st =? sb_depth sb) then inl StackError else     (* F40 repair: a brace is still open (or one too many was closed) in this alternative *)
       let save_next := N.max (sb_save_next sb) (p_save st) in
       let brks := sb_brks sb ++ [length res] in
       let res1 := res ++ [Break 0] in
@@ -114,6 +115,7 @@ Definition pstep (st : pstate) (chr : N) (rest : list N) : paterr + (pstate * li
     match p_subs st with
     | [] => inl SubPattern
     | sb :: subs =>
+      if negb (p_depth st =? sb_depth sb) then inl StackError else     (* F40 repair *)
       let res1 := upd res (sb_case sb) Nop in
       match fill_breaks res1 (sb_brks sb) with
       | inl e => inl e
@@ -194,6 +196,36 @@ Definition pstep (st : pstate) (chr : N) (rest : list N) : paterr + (pstate * li
   else if (chr =? 32) || (chr =? 10) || (chr =? 13) || (chr =? 9) then keep res
   else inl UnknownChar.
 
+(* F40: the code as it stood.  At '|' and ')' the brace depth was reset to the depth at the '(' of the group
+   (`depth = sub.depth;`) without comparing the two, so a '{' still open at the end of an alternative was accepted. *)
+Definition pstep_orig (st : pstate) (chr : N) (rest : list N) : paterr + (pstate * list N * bool) :=
+  let res := p_res st in
+  if chr =? 124 then                                            (* | *)
+    match p_subs st with
+    | [] => inl SubPattern
+    | sb :: subs =>
+      let save_next := N.max (sb_save_next sb) (p_save st) in
+      let brks := sb_brks sb ++ [length res] in
+      let res1 := res ++ [Break 0] in
+      let case_offset := (length res1 - sb_case sb - 1)%nat in
+      if Nat.leb 256 case_offset then inl SubOverflow
+      else
+        let res2 := upd res1 (sb_case sb) (Case (N.of_nat case_offset)) in
+        let sb' := {| sb_case := length res2; sb_brks := brks; sb_save := sb_save sb; sb_save_next := save_next; sb_depth := sb_depth sb |} in
+        inr ({| p_res := res2 ++ [Case 0]; p_save := sb_save sb; p_depth := sb_depth sb; p_subs := sb' :: subs; p_pos := p_pos st; p_barrier := p_barrier st |}, rest, true)
+    end
+  else if chr =? 41 then                                        (* ) *)
+    match p_subs st with
+    | [] => inl SubPattern
+    | sb :: subs =>
+      let res1 := upd res (sb_case sb) Nop in
+      match fill_breaks res1 (sb_brks sb) with
+      | inl e => inl e
+      | inr res2 => inr ({| p_res := res2; p_save := N.max (sb_save_next sb) (p_save st); p_depth := sb_depth sb; p_subs := subs; p_pos := p_pos st; p_barrier := length res2 |}, rest, true)
+      end
+    end
+  else pstep st chr rest.                                       (* every other character: unchanged *)
+
 Definition is_redundant (a : atom) : bool :=
   match a with Skip _ | Rangext _ | Pop | Many _ => true | _ => false end.
 Fixpoint trim_rev (l : list atom) : list atom :=      (* on the reversed list *)
@@ -226,4 +258,31 @@ Fixpoint ploop (fuel : nat) (total : nat) (st : pstate) (rest : list N) : res ((
 
 Definition parse (input : list N) : res ((paterr * nat) + list atom) :=
   ploop (S (length input)) (length input)
+        {| p_res := [Save 0]; p_save := 1; p_depth := 0; p_subs := []; p_pos := 0; p_barrier := 0 |} input.
+
+(* F40: the parser before the repair *)
+Fixpoint ploop_orig (fuel : nat) (total : nat) (st : pstate) (rest : list N) : res ((paterr * nat) + list atom) :=
+  match fuel with
+  | O => Fault OutOfFuel
+  | S f =>
+    match rest with
+    | [] =>
+      if negb (p_depth st =? 0) then Ok (inl (StackError, p_pos st))
+      else match p_subs st with
+           | _ :: _ => Ok (inl (SubPattern, p_pos st))
+           | [] => Ok (inr (trim (p_res st)))
+           end
+    | chr :: rest1 =>
+      match pstep_orig st chr rest1 with
+      | inl e => Ok (inl (e, p_pos st))
+      | inr (st', rest2, update) =>
+        let st'' := if update
+                    then {| p_res := p_res st'; p_save := p_save st'; p_depth := p_depth st'; p_subs := p_subs st'; p_pos := (total - length rest2)%nat; p_barrier := p_barrier st' |}
+                    else st' in
+        ploop_orig f total st'' rest2
+      end
+    end
+  end.
+Definition parse_orig (input : list N) : res ((paterr * nat) + list atom) :=
+  ploop_orig (S (length input)) (length input)
         {| p_res := [Save 0]; p_save := 1; p_depth := 0; p_subs := []; p_pos := 0; p_barrier := 0 |} input.
